@@ -30,6 +30,7 @@ TRUSTED = ["CPython ast parser", "attrs.define: validators/converters run on con
 
 HIDDEN = ["_atcorenums", "_charge", "_nelec", "_spinpol"]
 PUBLIC = {"_atcorenums": "atcorenums", "_charge": "charge", "_nelec": "nelec", "_spinpol": "spinpol"}
+EXPLANATION += ' (R6) validate_shape compares every axis for which an expected size is given and skips only None (an expected size of 0 is a size).'
 
 
 def run(ctx):
